@@ -7,7 +7,7 @@ import random
 
 DEV_DEFAULTS = dict(ups=[], cyc=0, cap=-1, delay=0, budget=-1, pval=0, bsrc=-1, bmix=False, bsize=0, req={}, pred='all',
                     vadd=0, qset=0, qinc=False, cycmod=0, offmod=0, offmod2=0, foff=0, late=False,
-                    wodur=0, wocap=0, wocost=0, gin=0, gout=0, vups=[], members=[], inputs=[], outputs=[])
+                    wodur=0, wocap=0, wocost=0, wear=0, thr=0, sint=-1, pint=0, scap=-1, gin=0, gout=0, vups=[], members=[], inputs=[], outputs=[])
 
 
 def norm(cfg):
@@ -63,7 +63,7 @@ def is_serial(cfg):
             return False
         if 0 < i < len(devs) - 1 and d['kind'] not in ('handler', 'processor', 'buffer'):
             return False
-        if d['cycmod'] or d['offmod'] or d['offmod2'] or d['foff'] or d['req']:
+        if d['cycmod'] or d['offmod'] or d['offmod2'] or d['foff'] or d['req'] or d['thr']:
             return False
     return True
 
@@ -459,6 +459,52 @@ def gen_targeted(rng, count=60):
     return out
 
 
+def gen_cbm(rng, count=24):
+    """Condition-based maintenance: machines that wear with every finished part (the part's quality is
+    the machine's damage), an output-part sensor (every (n+1)-th part) and / or a periodic sensor on
+    the damage, a condition-monitoring system that requests a work order when a reading reaches a
+    threshold, and a repair that resets the damage.  Also with failures, blocked inputs and a
+    maintainer that serves one order at a time."""
+    out = []
+    for i in range(count):
+        def machine(ups):
+            return dev('processor', ups, cyc=rng.choice([1, 2, 3]), wear=rng.choice([1, 1, 2]),
+                       sint=rng.choice([-1, 0, 0, 1, 2, 3]), pint=rng.choice([0, 0, 3, 4, 5, 7]),
+                       scap=rng.choice([-1, -1, 1, 2, 3]), thr=rng.choice([0, 2, 3, 4, 6]),
+                       wodur=rng.choice([0, 2, 3, 5]), wocap=rng.choice([0, 1, 1]), wocost=rng.choice([0, 1]),
+                       req=rng.choice([{}, {}, {'A': 1}]))
+        shape = i % 4
+        s = src(rng.choice([1, 2, 3]), rng.choice([6, 9, 12, -1]), pval=1)
+        if shape == 0:
+            devs = [s, machine([1]), dev('sink', [2], cyc=0)]
+        elif shape == 1:
+            devs = [s, machine([1]), dev('buffer', [2], cap=rng.choice([1, 2, -1]), delay=rng.choice([0, 1])), machine([3]),
+                    dev('sink', [4], cyc=0)]
+        elif shape == 2:
+            devs = [s, machine([1]), machine([1]), dev('sink', [2, 3], cyc=rng.choice([0, 1]))]
+        else:
+            devs = [s, dev('buffer', [1], cap=rng.choice([2, 3]), delay=0), machine([2]), machine([3]), dev('sink', [4], cyc=0)]
+        ms = [j + 1 for j, d in enumerate(devs) if d['kind'] == 'processor']
+        if all(devs[m - 1]['sint'] < 0 and devs[m - 1]['pint'] == 0 for m in ms):
+            devs[ms[0] - 1]['sint'] = 0
+        script = []
+        if rng.random() < 0.4:
+            m = rng.choice(ms)
+            t = rng.choice([3, 5, 8])
+            script += [dict(t=t, call='fail', dev=m, arg=rng.choice([0, 2])), dict(t=t + rng.choice([3, 5]), call='restore', dev=m, prio=90)]
+        if rng.random() < 0.3:
+            m = rng.choice(ms)
+            t = rng.choice([2, 6, 9])
+            script += [dict(t=t, call='block', dev=m), dict(t=t + rng.choice([2, 4]), call='unblock', dev=m)]
+        if rng.random() < 0.3:
+            script.append(dict(t=rng.choice([4, 7, 10]), call='workorder', dev=rng.choice(ms), res='y'))
+        cfg = norm(dict(devs=devs, script=script, horizon=rng.choice([24, 32, 40]), pools={'A': rng.choice([1, 2])},
+                        maintcap=rng.choice([1, 1, 2, -1])))
+        cfg['family'] = 'cbm'
+        out.append(cfg)
+    return out
+
+
 def gen_batch(rng, count=60):
     """single parts and batches through batchers, buffers, processors and sinks"""
     out = []
@@ -712,6 +758,7 @@ def quick_family(seed, scale=1.0):
     out += gen_gates(rng, max(4, int(70 * scale)))
     out += gen_groups(rng, max(4, int(60 * scale)))
     out += [add_faults(rng, c, rng.choice([1, 2, 3])) for c in gen_gates(rng, max(4, int(40 * scale))) + gen_batch(rng, max(4, int(40 * scale)))]
+    out += gen_cbm(rng, max(24, int(40 * scale)))
     # split runs: a third of the configurations is also run in two or three consecutive runs
     for c in list(out):
         if rng.random() < 0.2 and not c['splits']:
